@@ -42,6 +42,14 @@ def get_formatter(format: Format) -> typing.Callable[[str], str]:
 
 
 class GotranCCodePrinter(C99CodePrinter):
+    def _print_re(self, expr):
+        # All variables are real numbers, but sympy may introduce the real part,
+        # e.g. abs(exp(asin(x))) -> exp(re(asin(x)))
+        return self._print(expr.args[0])
+
+    def _print_im(self, expr):
+        return self._print(sympy.S.Zero)
+
     def __init__(self, *args, **kwargs):
         super().__init__(*args, **kwargs)
         self._settings["contract"] = False
